@@ -71,9 +71,9 @@ structure AllSpec (n : Nat) : Prop where
     Running b s top rest → (fnOf s s.curfunc).code[s.pc.toNat]? = some (.callExpr c0 args) →
     vok s.fns.length f = true → okLs args = true → (callResolved n f args).run s = (.ok (), s') →
     WF s' ∧ TExt s s' ∧ Next b s' top rest ∧ s'.suspended = s.suspended
-  loop : ∀ (b : Base) (st : CtlState) (s s' : St), WF s → Live b s → b.pc = -2 →
+  loop : ∀ (b : Base) (st : CtlState) (s s' : St), WF s → Live b s → b.pc = -2 → b.main = false →
     (runLoop n st).run s = (.ok (), s') → WF s' ∧ TExt s s' ∧ Finished b s' ∧ s'.suspended = s.suspended
-  run : ∀ (b : Base) (s s' : St) (top : Act) (v : Val), WF s → Running b s top [] → b.pc = -2 →
+  run : ∀ (b : Base) (s s' : St) (top : Act) (v : Val), WF s → Running b s top [] → b.pc = -2 → b.main = false →
     (run n).run s = (.ok v, s') →
     WF s' ∧ TExt s s' ∧ vok s'.fns.length v = true ∧ s'.data.map cellOf = b.data.map cellOf ∧ s'.linear = b.linear ∧
       s'.addr = b.addr ∧ s'.curfunc = b.cur ∧ s'.pc = -1 ∧ s'.suspended = s.suspended
@@ -112,10 +112,10 @@ theorem runLoop_finished (n : Nat) (st : CtlState) (s : St) (h : s.pc = -1) :
   simp only [run_bind, run_get, run_ite, h, true_or, if_true, run_pure]
 
 theorem loop_succ (n : Nat) (ih : AllSpec n) (b : Base) (st : CtlState) (s s' : St) (hw : WF s) (hl : Live b s)
-    (hb : b.pc = -2) (hex : (runLoop (n + 1) st).run s = (.ok (), s')) :
+    (hb : b.pc = -2) (hm : b.main = false) (hex : (runLoop (n + 1) st).run s = (.ok (), s')) :
     WF s' ∧ TExt s s' ∧ Finished b s' ∧ s'.suspended = s.suspended := by
   rcases hl with ⟨top, rest, hr⟩ | hf
-  · obtain ⟨hns, i, hi⟩ := hr.fetch
+  · obtain ⟨hns, i, hi⟩ := hr.fetch (hr.A_pos hm)
     rw [runLoop] at hex
     simp only [run_bind, run_get, run_ite, hns, if_false, hi] at hex
     rcases hx : (exec n i).run s with ⟨r, s1⟩
@@ -124,7 +124,7 @@ theorem loop_succ (n : Nat) (ih : AllSpec n) (b : Base) (st : CtlState) (s s' : 
     | error e => cases e <;> simp only [run_bind, run_restore, run_modify, run_throw] at hex <;> cases hex
     | ok u =>
       obtain ⟨hw1, he1, hl1, hs1⟩ := ih.exec b s s1 top rest i hw hr hi hx
-      obtain ⟨hw2, he2, hf2, hs2⟩ := ih.loop b st s1 s' hw1 hl1.live hb hex
+      obtain ⟨hw2, he2, hf2, hs2⟩ := ih.loop b st s1 s' hw1 hl1.live hb hm hex
       exact ⟨hw2, he1.trans he2, hf2, hs2.trans hs1⟩
   · have hpc : s.pc = -1 := by rw [hf.pc, hb]; rfl
     rw [runLoop_finished n st s hpc] at hex
@@ -132,7 +132,7 @@ theorem loop_succ (n : Nat) (ih : AllSpec n) (b : Base) (st : CtlState) (s s' : 
     exact ⟨hw, TExt.refl s, hf, rfl⟩
 
 theorem run_succ (n : Nat) (ih : AllSpec n) (b : Base) (s s' : St) (top : Act) (v : Val) (hw : WF s)
-    (hr : Running b s top []) (hb : b.pc = -2) (hex : (run (n + 1)).run s = (.ok v, s')) :
+    (hr : Running b s top []) (hb : b.pc = -2) (hm : b.main = false) (hex : (run (n + 1)).run s = (.ok v, s')) :
     WF s' ∧ TExt s s' ∧ vok s'.fns.length v = true ∧ s'.data.map cellOf = b.data.map cellOf ∧ s'.linear = b.linear ∧
       s'.addr = b.addr ∧ s'.curfunc = b.cur ∧ s'.pc = -1 ∧ s'.suspended = s.suspended := by
   rw [run_succ_eq] at hex
@@ -142,7 +142,7 @@ theorem run_succ (n : Nat) (ih : AllSpec n) (b : Base) (s s' : St) (top : Act) (
   cases r with
   | error e => cases hex
   | ok u =>
-    obtain ⟨hw2, he2, hf2, hs2⟩ := ih.loop b _ s s2 hw (Or.inl ⟨top, [], hr⟩) hb hl
+    obtain ⟨hw2, he2, hf2, hs2⟩ := ih.loop b _ s s2 hw (Or.inl ⟨top, [], hr⟩) hb hm hl
     simp only at hex
     unfold runTail at hex
     simp only [run_bind, run_get] at hex
@@ -176,7 +176,7 @@ theorem actOK_of_good {s : St} {id : Nat} (hg : FnGood s id) (hid : id < s.fns.l
     ∃ ann, Verified (fnB s id) ann ∧ ∀ D S A, ActOK s ⟨id, ann, D, S, A⟩ := by
   obtain ⟨ann, hv⟩ := hg.verified
   have hV := verified_of_verify _ _ hv
-  refine ⟨ann, hV, fun D S A => ⟨hV.toStep, hV.entry, ?_, ?_, hg.user, hid, hg.code⟩⟩
+  refine ⟨ann, hV, fun D S A => ⟨hV.toStep, fun _ => hV.entry, ?_, fun _ => ?_, hg.user, hid, hg.code⟩⟩
   · simp only [verify, Bool.and_eq_true, beq_iff_eq] at hv
     exact hv.1.1.1
   · have hfin := hV.fin
@@ -214,10 +214,22 @@ theorem exec_ret_ok (n : Nat) (b : Base) (s s' : St) (top : Act) (rest : List Ac
   cases rest with
   | nil =>
     obtain ⟨h1, h2, h3⟩ := hr.chain
+    cases hmain : b.main with
+    | true =>
+      -- the top-level text: no return address, `ret` is a run-time error
+      exfalso
+      rw [hmain] at h3
+      simp only [if_true] at h3
+      rw [h3] at hex
+      simp only [err, run_err] at hex
+      cases hex
+    | false =>
+    rw [hmain] at h3
+    simp only [Bool.false_eq_true, if_false] at h3
     rw [h3] at hex
     simp only [run_set] at hex
     cases hex
-    refine ⟨hw.ctl _ _ _, TExt.same rfl rfl, Or.inr (Or.inr (Or.inr ⟨rfl, rfl, ?_, ?_, rfl⟩)), rfl⟩
+    refine ⟨hw.ctl _ _ _, TExt.same rfl rfl, Or.inr (Or.inr (Or.inr ⟨rfl, rfl, ?_, ?_, rfl, hmain⟩)), rfl⟩
     · show s.data.map cellOf = _
       have : (absC s).data = s.data.map cellOf := rfl
       rw [← this, hd, h1]
